@@ -75,3 +75,34 @@ for _p, _why in {
 PROPS["C06"] = B("cases are 2-4 concurrent tasks x 1-3 UserEvent/Query calls on one real node plus a task delivering incoming user events/queries through the delegate, and the PRNG-chosen schedule at every lock, atomic and channel yield of the instrumented serf package; distinct = distinct (workload, schedule) hash; non-trivial = more than one decision point with several runnable goroutines",
     "Seeded schedule exploration of the real Serf.UserEvent/Query paths (overlay copy of package serf with yields and cooperative mutexes). Oracle from the application's event channel: locally originated events (resp. queries) have pairwise distinct Lamport times, later than every event (query) whose processing had completed before the call began; every query's result stream receives the reply addressed to it. Exact replay of the recorded schedule.",
     quick=(3000, 60), thorough=(200000, 1200))
+
+REAL_D = ["serf.Snapshotter: NewSnapshotter, teeStream, stream, appendLine, compact, replay (overlay copy of snapshot.go: only os.OpenFile/Remove/Rename/*os.File are redirected)", "bufio", "LamportClock"]
+SIM_D = ["disk (simfs: in-memory files, numbered operations, process-crash semantics, error/short-write injection)", "clock (synctest: flush interval, clock ticker, 30 s error-recovery interval, shutdown flush timeout)", "event stream (generated member/user/query events)"]
+NOTE_D = ("Trusted base: Go 1.26.8 testing/synctest, the instrumenter's redirection of snapshot.go's file calls to simfs, simfs itself (process-crash semantics: bytes handed to write(2) survive, bytes still in bufio do not; no power-loss model), and the reference line semantics of the snapshot format in sim/w/dsnap_test.go.")
+
+
+def D(rule, level_text, level="exploration", quick=(1500, 60), thorough=(60000, 1200), **kw):
+    d = {"engine": "D snapshot disk simulator", "build": "inst", "level": level, "rule": rule,
+         "level_text": level_text, "level_note": NOTE_D,
+         "quick": {"runs": quick[0], "budget_s": quick[1], "batch": 60, "min_budget_s": 60},
+         "thorough": {"runs": thorough[0], "budget_s": thorough[1], "batch": 300, "min_budget_s": 180},
+         "real": REAL_D, "simulated": SIM_D, "replay": "exact",
+         "states_measure": "distinct 32-bit hashes of (generation, number of states held, number of crash points) / fault sites",
+         "assumptions": ["process-crash semantics only (the property states them); fsync is an operation but adds no durability in the model",
+                         "the snapshotter keeps up with its event stream (the driver quiesces after every event)"]}
+    d.update(kw)
+    return d
+
+
+PROPS["C10"] = D("cases are seeded event histories (join/leave/failed/update/reap over up to 8 member names incl. spaces, UTF-8, '#', 'alive: ' prefixes, empty, IPv4/IPv6; user/query events; clock advances; fake-time advances crossing flush and tick intervals) with 0-2 clean restarts, compaction threshold drawn from {0,1,64,512,4096,128KiB}; distinct = distinct step-list hash; non-trivial = at least one event fed",
+    "Seeded exploration; event-level reference model (name->address map, three max-so-far clocks) compared with what the real recovery returns after every clean restart. Exact replay.",
+    quick=(4000, 45), thorough=(200000, 900))
+PROPS["C11"] = D("cases are seeded event histories over 1-3 generations; in every generation EVERY file-system operation boundary (open, write, sync, close, remove, rename) is a crash point and every write additionally at 2 torn lengths; each crash image is recovered by the real NewSnapshotter; the next generation starts from one of the crash images (torn ones preferred in half of the cases); distinct = distinct step-list hash; non-trivial = at least one generation enumerated",
+    "Fault enumeration: all crash points of each explored history are enumerated exhaustively (the histories themselves are sampled). Oracle: the recovered state must be a state the snapshot held (reference semantics folded over the lines it appended), at or after the last line completely handed to the OS before the crash, monotone along the run; recovery never errors.",
+    level="fault_enumeration", quick=(600, 75), thorough=(30000, 1500))
+PROPS["C12"] = D("for each seeded history, each file-system operation index of the pre-fault part fails once in turn (EIO or ENOSPC; writes also as short writes) - exhaustive single-fault enumeration including operations inside compaction and the reopen; the run continues past the 30 s recovery interval with further membership and clock changes, clean shutdown, reopen; distinct = distinct step-list hash; non-trivial = at least one fault fired",
+    "Fault enumeration: every single-fault injection point of each explored history. Oracle: the process survives, every event is still forwarded to the application, and after reopen the members and clocks changed after the fault are what a restart sees (pre-fault unwritten lines may be lost; nothing else is relaxed).",
+    level="fault_enumeration", quick=(250, 75), thorough=(15000, 1500))
+PROPS["C13"] = D("cases are seeded event histories before and after Leave(), both rejoin-after-leave settings, every compaction threshold (compaction before and after the leave), shutdown, reopen; distinct = distinct step-list hash; non-trivial = a leave was issued",
+    "Seeded exploration; after leave+shutdown the real recovery must return an empty rejoin set (rejoin disabled) or exactly the set known when Leave() was called (enabled). Exact replay.",
+    quick=(4000, 45), thorough=(200000, 900))
